@@ -149,10 +149,14 @@ def model_token(p, text):
 
 
 def run_str(ctx, spec):
-    _, adeg, n_dec, fancy, ra = spec
+    _, adeg, n_dec, fancy, ra = spec[:5]
     a = A()(adeg)
     if core.fbits(a._deg) != core.fbits(adeg):
         return
+    if len(spec) > 5:
+        # the object's comparison tolerance is no part of what is printed: the printed form must be the same
+        # whatever set_tolerance() was called with before (the model prints from the value alone)
+        a.set_tolerance(spec[5])
     klass = 'str/%s/%s/n%s' % ('ra' if ra else 'dms', 'fancy' if fancy else 'colon', n_dec)
     meth = a.ra_str if ra else a.dms_str
     try:
@@ -352,10 +356,23 @@ def grid_specs(ctx):
             yield ['round', 60 - 10.0 ** -(1 + i % 15), n]
 
 
+TOLS = [0.0, 1e-3, 1e-6, 1e-12, 1.0]
+
+
+def run_spec_tol(ctx, s):
+    run_spec(ctx, s)
+    if s[0] == 'str' and (core.fbits(s[1]) >> 2) % 5 == 0:
+        run_spec(ctx, list(s) + [TOLS[(core.fbits(s[1]) >> 5) % len(TOLS)]])
+
+
 def generate(ctx, shard=0, nshards=1):
+    _plain = run_spec
     if shard == 0:
         for s in fixed_specs():
             run_spec(ctx, s)
+            if s[0] == 'str':
+                for t in TOLS[:3]:
+                    run_spec(ctx, list(s) + [t])
         ctx.sample({'call': "Angle(23, 59, 59.99999).dms_str(n_dec=2)", 'expected': "24d 0' 0.0''"})
         ctx.sample({'call': "Angle(-0.0001).dms_str(False, 2)", 'expected': '0:0:-0.36'})
         ctx.sample({'call': 'Angle(1.1).dms_tuple()', 'expected': '(1, 6, ~3e-13, 1.0)'})
@@ -363,14 +380,14 @@ def generate(ctx, shard=0, nshards=1):
     if changed or ctx.tier == 'thorough':
         for i, s in enumerate(grid_specs(ctx)):
             if i % nshards == shard:
-                run_spec(ctx, s)
+                run_spec_tol(ctx, s)
         ctx.notes.append('boundary grid enumerated in full')
     base = 700000 if ctx.tier != 'thorough' else 6000000
     # the random stream is not multiplied when the source changed (the grid above is the extra effort);
     # the failing-input search (scale >= 10) gets a larger stream, capped
     n = base if ctx.scale <= 4 else min(int(base * ctx.scale / 4), 12000000)
     for s in gen_specs(ctx, n // nshards):
-        run_spec(ctx, s)
+        run_spec_tol(ctx, s)
 
 
 def replay(case):
